@@ -16,6 +16,7 @@ mod c05;
 mod c06;
 mod c07;
 mod c08;
+mod c09;
 mod c16;
 mod c17;
 mod c18;
@@ -93,6 +94,8 @@ fn search(twin: &str, case: Option<&str>, seed: u64) -> Option<Value> {
         c18::search(twin, case, seed)
     } else if twin.starts_with("c19.") {
         c19::search(twin, case, seed)
+    } else if twin.starts_with("c09.") {
+        c09::search(twin, case, seed)
     } else if twin.starts_with("c08.") {
         c08::search(twin, case, seed)
     } else if twin.starts_with("c24.") {
@@ -123,6 +126,8 @@ fn replay(twin: &str, input: &Value) -> Value {
         c18::replay(twin, input)
     } else if twin.starts_with("c19.") {
         c19::replay(twin, input)
+    } else if twin.starts_with("c09.") {
+        c09::replay(twin, input)
     } else if twin.starts_with("c08.") {
         c08::replay(twin, input)
     } else if twin.starts_with("c24.") {
@@ -153,6 +158,8 @@ fn sweep(twin: &str, seed: u64) -> Value {
         c18::sweep(twin, seed)
     } else if twin.starts_with("c19.") {
         c19::sweep(twin, seed)
+    } else if twin.starts_with("c09.") {
+        c09::sweep(twin, seed)
     } else if twin.starts_with("c08.") {
         c08::sweep(twin, seed)
     } else if twin.starts_with("c24.") {
